@@ -104,8 +104,10 @@ def wall_clock_cases(chk, fens):
         black = fen.split()[1] == "b"
         own, oth = ("b", "w") if black else ("w", "b")
         parts = {own + "time": t}
+        # the opponent's clock is ten times larger: an engine that reads the wrong side's clock overruns its own
+        ot = t * 10
         if not only_own:
-            parts[oth + "time"] = t
+            parts[oth + "time"] = ot
         if inc is not None:
             parts[own + "inc"] = inc
             if not only_own:
@@ -115,7 +117,7 @@ def wall_clock_cases(chk, fens):
             go += " movestogo %d" % mtg
         has_oinc = 1 if (inc is not None and not only_own) else 0
         sit = {"rem": t, "inc": inc if inc is not None else -1, "mtg": mtg if mtg is not None else -1, "mt": -1,
-               "ovh": ovh, "orem": t, "oinc": inc if has_oinc else -1, "stm": "b" if black else "w",
+               "ovh": ovh, "orem": ot, "oinc": inc if has_oinc else -1, "stm": "b" if black else "w",
                "has": [1, 0 if inc is None else 1, 0 if mtg is None else 1, 0, 0 if only_own else 1, has_oinc]}
         cases.append({"fen": fen, "go": go, "ovh": ovh, "t": t, "sit": sit})
 
